@@ -1231,7 +1231,52 @@ def cfgreload(rng):
     return {"cfg": _cfg(rng, n), "ops": ops}
 
 
-FAMILIES = {"cfgreload": cfgreload, "badonion": badonion, "inflightadd": inflightadd, "openshut": openshut, "windowlimit": windowlimit, "tampercs": tampercs, "fwdlate": fwdlate, "asyncsign": asyncsign, "skim": skim, "batchopen": batchopen, "discomplete": discomplete, "monbcast": monbcast, "staletwo": staletwo, "bigclaim": bigclaim, "dustclose": dustclose, "slots": slots, "asynccross": asynccross, "blockedjump": blockedjump, "feecross": feecross, "opendisc": opendisc, "chainsettle": chainsettle, "crosslimit": crosslimit, "evhold": evhold, "failwin": failwin, "fanin": fanin, "inflight": inflight, "holdcell": holdcell, "stalehold": stalehold}
+def evreload(rng):
+    """A line of 2-3 nodes; the user of one (or every) node answers ReplayEvent to payment events, payments are
+    sent, claimed and failed so that PaymentClaimable / PaymentClaimed / PaymentSent / PaymentFailed / PaymentForwarded
+    pile up unhandled, and nodes are written and re-read (clean reloads) at every stage (C12: the manager's payments
+    and events survive the round trip: the event at the head of the queue comes back as it was shown, the recent
+    payments and every pending HTLC read the same, and the run goes on as a behaviour of the specification)."""
+    n = rng.choice([2, 2, 3])
+    pairs = [(i, i + 1) for i in range(n - 1)]
+    dirs = pairs + [(b, a) for (a, b) in pairs]
+    ops = []
+    npay = 0
+    holders = [rng.randrange(n)] if rng.random() < 0.6 else list(range(n))
+    if rng.random() < 0.5:
+        # some are refused from the start (PaymentClaimable of the recipient, too)
+        ops += [{"op": "hold_events", "node": x, "on": True} for x in holders]
+    def maybe_reload():
+        if rng.random() < 0.45:
+            x = rng.choice(holders + [rng.randrange(n)])
+            ops.append({"op": "reload", "node": x})
+            for (a, b) in pairs:
+                if x in (a, b):
+                    ops.append({"op": "reconnect", "a": a, "b": b})
+            ops.extend(_deliveries(rng, dirs, rng.randrange(0, 6)))
+    for _ in range(rng.choice([1, 2, 2, 3])):
+        a, b = (0, n - 1) if rng.random() < 0.6 else (n - 1, 0)
+        ops.append({"op": "send", "from": a, "to": b, "amt": rng.choice(["big", "big", "justabove", "dust"])})
+        npay += 1
+        ops.append({"op": "deliver_all"}) if rng.random() < 0.7 else ops.extend(_deliveries(rng, dirs, rng.randrange(2, 9)))
+        maybe_reload()
+    ops += [{"op": "hold_events", "node": x, "on": True} for x in holders]
+    ops.append({"op": "deliver_all"})
+    for k in range(npay):
+        if rng.random() < 0.85:
+            ops.append({"op": "claim" if rng.random() < 0.7 else "fail", "pay": k})
+        ops.append({"op": "deliver_all"}) if rng.random() < 0.6 else ops.extend(_deliveries(rng, dirs, rng.randrange(0, 8)))
+        if rng.random() < 0.3:
+            ops.append({"op": "forward", "node": rng.randrange(n)})
+        maybe_reload()
+    ops.append({"op": "deliver_all"})
+    maybe_reload()
+    ops += [{"op": "hold_events", "node": x, "on": False} for x in range(n)]
+    ops += _wind_down(npay, rng, pairs)
+    return {"cfg": _cfg(rng, n), "ops": ops}
+
+
+FAMILIES = {"evreload": evreload, "cfgreload": cfgreload, "badonion": badonion, "inflightadd": inflightadd, "openshut": openshut, "windowlimit": windowlimit, "tampercs": tampercs, "fwdlate": fwdlate, "asyncsign": asyncsign, "skim": skim, "batchopen": batchopen, "discomplete": discomplete, "monbcast": monbcast, "staletwo": staletwo, "bigclaim": bigclaim, "dustclose": dustclose, "slots": slots, "asynccross": asynccross, "blockedjump": blockedjump, "feecross": feecross, "opendisc": opendisc, "chainsettle": chainsettle, "crosslimit": crosslimit, "evhold": evhold, "failwin": failwin, "fanin": fanin, "inflight": inflight, "holdcell": holdcell, "stalehold": stalehold}
 
 
 def make(rng, family, count):
